@@ -482,6 +482,11 @@ class Ev:
         # event stream (same order, same guards), so that no rule depends on how a two-way branch is spelled
         c, pol = canon_guard(self.ev(st.test), True)
         body, orelse = (st.body, st.orelse) if pol else (st.orelse, st.body)
+        ca0 = c.as_atom()
+        if ca0 and ca0[0] == "tuple":
+            # `if <literal tuple>:` is decided by its length
+            self.block(body if ca0[1] else orelse)
+            return
         self.emit("test", st, value=c)
         env0 = dict(self.env)
         fwd0 = dict(self.fwd)
@@ -994,6 +999,9 @@ class Ev:
     def canon_call(self, callee: P, args, kwargs, node) -> P:
         ca = callee.as_atom()
         name = ca[1] if ca and ca[0] == "name" else None
+        if name in ("tuple", "list") and len(args) == 1 and not kwargs and args[0].as_atom() and args[0].as_atom()[0] == "tuple":
+            # tuple([a, b]) / list((a, b)) of a literal is the literal
+            return args[0]
         if name == "dict" and not args and kwargs:
             # dict(a=1, b=2) is the literal {"a": 1, "b": 2}
             return P.atom(("dict", tuple((P.atom(("str", k)), v) for k, v in kwargs)))
@@ -1097,6 +1105,18 @@ class Ev:
                 saved = dict(self.env)
                 items = []
                 for v in lit:
+                    self.assign(n.generators[0].target, v, n)
+                    items.append(self.ev(elts[0]))
+                self.env = saved
+                return P.atom(("tuple", tuple(items)))
+        if isinstance(n, (ast.ListComp, ast.GeneratorExp)) and len(n.generators) == 1 and not n.generators[0].ifs and self.unroll \
+                and isinstance(n.generators[0].iter, ast.Name):
+            itv = self.ev(n.generators[0].iter).as_atom()
+            if itv and itv[0] == "tuple" and len(itv[1]) <= self.MAX_UNROLL and n.generators[0].iter.id in self.env:
+                # a local bound to a literal tuple: the comprehension is the tuple of its elements
+                saved = dict(self.env)
+                items = []
+                for v in itv[1]:
                     self.assign(n.generators[0].target, v, n)
                     items.append(self.ev(elts[0]))
                 self.env = saved
@@ -1238,6 +1258,9 @@ def concat(a: P, b: P) -> P:
             items.extend(xa[1])
         else:
             items.append(x)
+    # (a, b) + (c,) of literal tuples is the literal (a, b, c)
+    if all(i.as_atom() and i.as_atom()[0] == "tuple" for i in items):
+        return P.atom(("tuple", tuple(e for i in items for e in i.as_atom()[1])))
     return P.atom(("concat", tuple(items)))
 
 
